@@ -596,6 +596,14 @@ class Engine:
             return self._const_cache[key]
         name = strip_generics(t)
         last = name.split("::")[-1]
+        # `Enum::Variant::{constant#0}`: the initialiser of an explicit discriminant (`Variant = 19`), as used by `Variant as u32`
+        mdc = re.match(r"^(.*)::(\w+)::\{constant#\d+\}$", t.strip())
+        if mdc:
+            e = self.reg.lookup(strip_generics(mdc.group(1)))
+            if e and e["clike"] and mdc.group(2) in e["by_name"]:
+                v = z3.BitVecVal(e["by_name"][mdc.group(2)], e["width"])
+                self._const_cache[key] = v
+                return v
         xc = getattr(self, "extra_consts", None)
         if xc:
             k2 = "::".join(name.split("::")[-2:])
